@@ -2,7 +2,7 @@
 
 COMPONENTS = {
     "real": ["sorter", "ingest worker pool", "objects encodings", "diff", "merge", "index/hash-set", "ref helpers",
-             "refsql on real SQLite (through the sqlite3_sim driver wrapper, hook H3), "commits queue", "closed-sets finder", "object sender/receiver",
+             "refsql on real SQLite (through the sqlite3_sim driver wrapper, hook H3)", "commits queue", "closed-sets finder", "object sender/receiver",
              "packfile/pktline/objline", "client upload-pack/receive-pack sessions", "apiclient.Client", "fetch.Fetch",
              "CLI commands via RootCmd()", "prune", "doctor", "transaction"],
     "stub": ["object store (in-memory simstore instead of Badger; the real Badger store runs in a quarter of the C01cli cases)", "HTTP server glue of the remote (refserver)",
